@@ -271,9 +271,16 @@ func (g *Gen) orAlternatives(valKind Kind) RV {
 		case 2:
 			// rule-set for a number
 			m, f := RandBound(g.Rng)
-			items = append(items, SetOf(Rule{"type", LitV(Q(pick(g.Rng, []string{"integer", "float"})))}, Rule{pick(g.Rng, []string{"min", "max"}), LitV(decimalStr(m, f))}))
+			rs := []Rule{{"type", LitV(Q(pick(g.Rng, []string{"integer", "float"})))}, {pick(g.Rng, []string{"min", "max"}), LitV(decimalStr(m, f))}}
+			if g.Rng.IntN(3) == 0 {
+				rs = append(rs, Rule{"nullable", LitV("true")})
+			}
+			g.Rng.Shuffle(len(rs), func(i, j int) { rs[i], rs[j] = rs[j], rs[i] }) // `type` need not be written first
+			items = append(items, SetOf(rs...))
 		default:
-			items = append(items, SetOf(Rule{"type", LitV(`"string"`)}, Rule{pick(g.Rng, []string{"minLength", "maxLength"}), LitV(strconv.Itoa(g.Rng.IntN(6)))}))
+			rs := []Rule{{"type", LitV(`"string"`)}, {pick(g.Rng, []string{"minLength", "maxLength"}), LitV(strconv.Itoa(g.Rng.IntN(6)))}}
+			g.Rng.Shuffle(len(rs), func(i, j int) { rs[i], rs[j] = rs[j], rs[i] })
+			items = append(items, SetOf(rs...))
 		}
 	}
 	// alternatives must be pairwise distinct (a repeated type name is refused as recursion)
@@ -321,7 +328,11 @@ func (g *Gen) Scalar(inObject bool) *Node {
 			if ln < 0 {
 				ln = 0
 			}
-			n.Lit = Q(strings.Repeat("a", ln))
+			unit := "a"
+			if rng.IntN(4) == 0 {
+				unit = pick(rng, []string{"é", "€", "😀", "я"})
+			}
+			n.Lit = Q(strings.Repeat(unit, ln))
 			if rng.IntN(2) == 0 {
 				n.R("minLength", strconv.Itoa(limit))
 				if rng.IntN(3) == 0 {
